@@ -89,16 +89,27 @@ class Ticket:
     def release_blocks(self, b, sa):
         return {e.info["top_bb"] for e in self.direct_events(b, sa) if self.is_release(e)}
 
+    def serving_load(self, a):
+        """the load term if `a` is a load of the now-serving counter of the ticket implementor — or a local that holds the
+        latest of several such loads (`let mut y = load(); while .. { y = load(); }`): the first of them; else None"""
+        if a[0] == "atomic" and a[1] == "load":
+            role, adt = self.role_of(a[2])
+            return a if (role == "serving" and adt == self.adt) else None
+        if a[0] == "phi" and a[1]:
+            ls = [self.serving_load(x) for x in a[1]]
+            if all(x is not None for x in ls):
+                return ls[0]
+        return None
+
     # ---- admission --------------------------------------------------------------------------------
     def admission_fact(self, ctx, bb):
         """(load_term, ticket_term) if block bb is dominated by an `ticket == load(SERVING)` edge"""
         for f in block_facts(self.env.ev, ctx, bb):
             if f[0] == "eq" and len(f) == 3:
                 for a, b in ((f[1], f[2]), (f[2], f[1])):
-                    if a[0] == "atomic" and a[1] == "load":
-                        role, adt = self.role_of(a[2])
-                        if role == "serving" and adt == self.adt and self._still_held(ctx, a):
-                            return (a, b)
+                    ld = self.serving_load(a)
+                    if ld is not None and self._still_held(ctx, ld):
+                        return (ld, b)
         return None
 
     def _still_held(self, ctx, load):
@@ -145,10 +156,9 @@ class Ticket:
         for f in self.env.ev.payload_facts.get(p, []):
             if f[0] == "eq":
                 for a, b in ((f[1], f[2]), (f[2], f[1])):
-                    if a[0] == "atomic" and a[1] == "load":
-                        role, adt = self.role_of(a[2])
-                        if role == "serving" and adt == self.adt and b == p:
-                            return a
+                    ld = self.serving_load(a)
+                    if ld is not None and b == p:
+                        return ld
         return None
 
     # ---- return values that carry the ticket --------------------------------------------------------
@@ -156,10 +166,9 @@ class Ticket:
         """(load, ticket) if fact f is `ticket == load(now-serving)`"""
         if f[0] == "eq" and len(f) == 3:
             for a, b in ((f[1], f[2]), (f[2], f[1])):
-                if a[0] == "atomic" and a[1] == "load":
-                    role, adt = self.role_of(a[2])
-                    if role == "serving" and adt == self.adt:
-                        return (a, b)
+                ld = self.serving_load(a)
+                if ld is not None:
+                    return (ld, b)
         return None
 
     def is_gate(self, f, val):
